@@ -221,11 +221,12 @@ package basestore
 //@   assert @ before call options.Index#1: @C03 @C04 @C09 acOf(b.oplog) == b.access && logID(b.oplog) == addrStr(addr)
 //@   assert @ before call b.replicator.EventBus().Subscribe#1: @C09 freshBus(replBus(b.replicator))
 
-// LoadFromSnapshot (C13 C08 C01): record lengths read from the file are 16-bit, so every allocation is
+// LoadFromSnapshot (C13 C08 C01 C19): after a successful load progress and max follow the merged log (never
+// below its length, never decreasing); record lengths read from the file are 16-bit, so every allocation is
 // valid whatever the file says; the rebuilt log is joined untrimmed (nothing already merged is removed);
 // on success the view is the replay of the log.
 //@ func (*BaseStore).LoadFromSnapshot
-//@   props C13 C08 C01
+//@   props C13 C08 C01 C19
 //@   safety C13
 //@   flag nilcalls
 //@   requires wf(b) && b.emitters.evtLoad != nil && b.ipfs != nil && b.address != nil && b.options.IO != nil
@@ -238,6 +239,8 @@ package basestore
 //@   assume @ loop 3 body: h != nil
 //@   ensures @C01 @C13 result == nil ==> synced(b)
 //@   ensures @C08 @C13 forall x Iface :: old(ents(L)[x]) ==> ents(L)[x]
+//@   ensures @C19 statusMax(b.replicationStatus) >= old(statusMax(b.replicationStatus)) && statusProgress(b.replicationStatus) >= old(statusProgress(b.replicationStatus))
+//@   ensures @C19 result == nil ==> logLen(L) <= statusProgress(b.replicationStatus) && statusProgress(b.replicationStatus) <= statusMax(b.replicationStatus)
 
 // SaveSnapshot (C13): never panics; every recorded 16-bit length equals the real length (the conversions
 // are value preserving: larger records are refused with an error); on success the header records as many
